@@ -118,6 +118,9 @@ BUILDS = {
                                         rustflags="-C panic=abort -C target-cpu=native", cargo_env={"CARGO_PROFILE_RELEASE_OPT_LEVEL": "s"}),
     "mix-std-abort-z": Build("mix-std-abort-z", features=["std", "x25519", "p256", "p384", "p521"], rustflags="-C panic=abort",
                              cargo_env={"CARGO_PROFILE_RELEASE_OPT_LEVEL": "z", "CARGO_PROFILE_RELEASE_DEBUG_ASSERTIONS": "false", "CARGO_PROFILE_RELEASE_OVERFLOW_CHECKS": "false"}),
+    # a compiler on which every feature probe of a build script fails (autocfg-style probes compile a snippet and select
+    # a fallback when it is rejected): the fallbacks, written for older compilers, must behave like the main path
+    "noprobe": Build("noprobe", cargo_env={"RUSTC": "@NOPROBE_SHIM@"}),
     # the cfg that cargo-fuzz / afl / honggfuzz set on the whole dependency graph (some crates weaken checks under it)
     "cfg-fuzzing": Build("cfg-fuzzing", rustflags="--cfg fuzzing --check-cfg cfg(fuzzing)"),
 }
@@ -160,6 +163,23 @@ def pairwise_builds():
     return out
 
 
+def noprobe_shim():
+    """Writes (once per run) a shell script that behaves like rustc except that it rejects the sources a build script
+    compiles to probe for compiler features (files in a build script's OUT_DIR, or read from stdin)."""
+    d = os.path.join(VERIF, "work", "shims")
+    os.makedirs(d, exist_ok=True)
+    path = os.path.join(d, "rustc-noprobe")
+    real = subprocess.run(["rustup", "which", "rustc"], stdout=subprocess.PIPE, text=True).stdout.strip() or "rustc"
+    body = ("#!/bin/sh\nprobe=0\nfor a in \"$@\"; do\n  case \"$a\" in\n    --print*|-vV|--version|-V) exec \"%s\" \"$@\" ;;\n"
+            "    */build/*/out/*.rs|-) probe=1 ;;\n  esac\ndone\n"
+            "if [ $probe = 1 ]; then echo 'error: feature probe rejected by the verification shim' >&2; exit 1; fi\nexec \"%s\" \"$@\"\n") % (real, real)
+    if not os.path.exists(path) or open(path).read() != body:
+        with open(path, "w") as fh:
+            fh.write(body)
+        os.chmod(path, 0o755)
+    return path
+
+
 def build_driver(b, timeout=1800):
     """Builds from REPO's current working tree (cargo's own freshness logic decides what to redo).
     Returns (binary path, seconds).  Raises Inconclusive on failure."""
@@ -183,6 +203,8 @@ def build_driver(b, timeout=1800):
         flags = ("--cfg %s " % GUARD) + flags
     env["RUSTFLAGS"] = flags.strip()
     env.update(b.cargo_env)
+    if env.get("RUSTC") == "@NOPROBE_SHIM@":
+        env["RUSTC"] = noprobe_shim()
     t0 = time.time()
     try:
         p = subprocess.run(cmd, cwd=cdir, env=env, stdout=subprocess.PIPE, stderr=subprocess.STDOUT,
